@@ -185,6 +185,9 @@ class EZSP:
 
     def close(self):
         self.stop_ezsp()
+        if self._protocol is not None:
+            # Commands still waiting for their turn must not be sent to a closed port
+            self._protocol.stop()
         if self._gw:
             self._gw.close()
             self._gw = None
